@@ -626,6 +626,12 @@ func (s nilState) intOf(v ssa.Value) (int64, bool) {
 	if n, ok := s[v]; ok && n >= intBase {
 		return int64(n-intBase) - intBias, true
 	}
+	// the length of something known to be nil (or the empty string) is 0
+	if c, ok := v.(*ssa.Call); ok && len(c.Call.Args) == 1 {
+		if b, isB := c.Call.Value.(*ssa.Builtin); isB && b.Name() == "len" && s.of(c.Call.Args[0]) == 1 {
+			return 0, true
+		}
+	}
 	return 0, false
 }
 
